@@ -13,7 +13,9 @@
    `valid_join_case_weak`; the code-level theorems `_tight` below then need, on top of the hypotheses of the
    end-to-end theorems, ONLY:  unique keys; a set tokenizer (NoDup tokens);
         J/C/D:  threshold = a double with env_t, token counts < 2^20, sim_fn = the measure on token lists;
-        OVERLAP_COEFFICIENT:  a positive (non-NaN) threshold;   OVERLAP:  an integer overlap size.          *)
+        OVERLAP_COEFFICIENT:  nothing more (the positive, non-NaN threshold follows from validate_threshold:
+        CodeLevelJoins2.ovc_pos_of_valid; the statement with the former extra hypothesis pos_threshold (ft p)
+        is kept as C01_C02_code_overlap_coefficient_tight_pos);   OVERLAP:  an integer overlap size.          *)
 From Coq Require Import ZArith Bool List String Lia Permutation.
 From SSJ Require Import F64 PyNum FilterUtilsGen HelperGen TokenOrderingGen ValidationGen IndexGen JoinGen
      TokenOrdering Measures Filters Joins Api JoinSpec MetaSpec Projection ProjSpec IndexPyFacts ProjectionFacts
@@ -219,8 +221,7 @@ Section TightOvc.
   Hypothesis HszL : forall row, In row (lpresent c lsrc) -> len (toks (lcell c row)) < 2^50.
   Hypothesis HszR : forall row, In row (rpresent c rsrc) -> len (toks (rcell c row)) < 2^50.
   Hypothesis Hn : Z.of_nat (List.length (rpresent c rsrc)) < 2^31.
-  (* extra *)
-  Hypothesis Hpos : pos_threshold (ft p).
+  (* extra (pos_threshold (ft p) is no longer among them: CodeLevelJoins2.ovc_pos_of_valid) *)
   Hypothesis Hkeys : keys_unique c kz lsrc rsrc.
   Hypothesis Hnodup : cells_sat c lsrc rsrc (fun v => NoDup (toks v)).
 
@@ -234,11 +235,45 @@ Section TightOvc.
     - split; [exact (lower_op_of_valid op "OVERLAP_COEFFICIENT" eq_refl Hvop)|].
       exists "OVERLAP_COEFFICIENT"%string. split.
       { unfold ovc_code_jcase, jcase_of. cbn [j_entry]. now rewrite Hfm. }
-      split; [right; right; split; [reflexivity | exact Hpos]|].
+      split; [right; right; split; [reflexivity | exact (ovc_pos_of_valid (ft p) Hvt)]|].
       apply (tables_ok_weak_of c lsrc rsrc toks kz (ovc_code_jcase c p op ae am njobs cpus lsrc rsrc toks kz) eq_refl eq_refl _ Hkeys); [|exact Hn].
       destruct Hnodup as (HL & HR). split; intros row Hr; (split; [auto | discriminate]).
   Qed.
 End TightOvc.
+
+(* the statement as it was before validate_threshold rejected NaN (extra hypothesis pos_threshold (ft p)):
+   now a corollary *)
+Corollary C01_C02_code_overlap_coefficient_tight_pos :
+  forall (c : pcase) (p : fparams) (op : string) (ae am : bool) (njobs cpus : Z)
+         (lsrc rsrc : list (list pyval)) (showp : pyval) (tokenize : pyval -> pyval)
+         (toks : pyval -> list Z) (cf : pyval -> pyval -> pyval) (kz : pyval -> Z),
+  well_formed c ->
+  (forall row, In row lsrc -> List.length row = List.length (p_lcols c) /\ ProjSpec.row_ok row) ->
+  (forall row, In row rsrc -> List.length row = List.length (p_rcols c) /\ ProjSpec.row_ok row) ->
+  (forall row, In row (lpresent c lsrc) -> tokenize (lcell c row) = pints (toks (lcell c row))) ->
+  (forall row, In row (rpresent c rsrc) -> tokenize (rcell c row) = pints (toks (rcell c row))) ->
+  fm p = "OVERLAP_COEFFICIENT"%string ->
+  is_exc (validate_threshold (ft p) (PStr "OVERLAP_COEFFICIENT")) = false ->
+  is_exc (validate_comp_op_for_sim_measure (PStr op) (PStr "OVERLAP_COEFFICIENT")) = false ->
+  is_exc (validate_output_attrs (py_opt_strs (p_lout c)) (py_strs (p_lcols c))
+                                (py_opt_strs (p_rout c)) (py_strs (p_rcols c))) = false ->
+  comp_op_map op = Some cf ->
+  num_of (ft p) <> None ->
+  ~ In "_id"%string (mv_header c) ->
+  (forall row, In row (lpresent c lsrc) -> len (toks (lcell c row)) < 2^50) ->
+  (forall row, In row (rpresent c rsrc) -> len (toks (rcell c row)) < 2^50) ->
+  Z.of_nat (List.length (rpresent c rsrc)) < 2^31 ->
+  pos_threshold (ft p) ->
+  keys_unique c kz lsrc rsrc ->
+  cells_sat c lsrc rsrc (fun v => NoDup (toks v)) ->
+  code_join_conclusion c am lsrc rsrc kz (ovc_code_jcase c p op ae am njobs cpus lsrc rsrc toks kz)
+    (ovc_call c p op ae am njobs cpus lsrc rsrc showp tokenize).
+Proof.
+  intros c p op ae am njobs cpus lsrc rsrc showp tokenize toks cf kz
+         Hwf Hl Hr HtL HtR Hfm Hvt Hvop Hvout Hop Hnum Hid HszL HszR Hn _ Hkeys Hnodup.
+  exact (C01_C02_code_overlap_coefficient_tight c p op ae am njobs cpus lsrc rsrc showp tokenize toks cf kz
+           Hwf Hl Hr HtL HtR Hfm Hvt Hvop Hvout Hop Hnum Hid HszL HszR Hn Hkeys Hnodup).
+Qed.
 
 Section TightOverlap.
   Variables (c : pcase) (T : Z) (op : string) (am : bool) (q njobs cpus : Z).
@@ -284,4 +319,5 @@ Print Assumptions C01_C02_code_jaccard_tight.
 Print Assumptions C01_C02_code_cosine_tight.
 Print Assumptions C01_C02_code_dice_tight.
 Print Assumptions C01_C02_code_overlap_coefficient_tight.
+Print Assumptions C01_C02_code_overlap_coefficient_tight_pos.
 Print Assumptions C01_C02_code_overlap_join_tight.
